@@ -155,6 +155,90 @@ def flows_to_visitor(body, start, visitors, file=None):
     return False
 
 
+def returns_before_visit(body, start, visitors, file=None):
+    """path rule: `return`s (not inside closures) in `body` that can be reached on a path on which no call of a visitor has
+    yet received (part of) the value bound to `start`.  `?` is the error exit and is not counted.  returns line numbers."""
+    if file is not None:
+        from astlib import inline_helpers
+
+        body = inline_helpers({"name": "__caller__", "body": body, "sig": {"inputs": []}}, file, exclude=tuple(visitors))["body"]
+    reach = alias_closure(body, start)
+
+    def leaf(node):
+        if node is None:
+            return False
+        for n in walk(node):
+            args = None
+            if n["k"] == "Call" and n["func"]["k"] == "Path" and last(n["func"]["path"]) in visitors:
+                args = n["args"]
+            elif n["k"] == "MethodCall" and n["method"] in visitors:
+                args = [n["recv"]] + n["args"]
+            elif n["k"] == "MethodCall" and n["args"] and n["method"] in ("for_each", "map", "try_for_each") and n["args"][-1].get("k") == "Path" and last(n["args"][-1]["path"]) in visitors:
+                args = [n["recv"]]
+            if args and any({p["path"] for p in walk(a) if p["k"] == "Path"} & reach for a in args):
+                return True
+        return False
+
+    def has_return(node):
+        if not isinstance(node, dict) or "k" not in node:
+            return False
+        if node["k"] in ("Closure", "ItemStmt"):
+            return False
+        if node["k"] == "Return":
+            return True
+        return any(has_return(x) for v in node.values() for x in (v if isinstance(v, list) else [v]))
+
+    bad = []
+
+    def run(node, vis):
+        """vis: has the child been visited on every path reaching this node; returns the same for the paths leaving it
+        normally, None when no path does"""
+        if not isinstance(node, dict) or "k" not in node:
+            return vis
+        k = node["k"]
+        if not has_return(node):
+            return vis or leaf(node)
+        if k == "Return":
+            v = run(node.get("e"), vis) if node.get("e") is not None else vis
+            if v is False:
+                bad.append(node.get("line"))
+            return None
+        if k == "If":
+            c = run(node["cond"], vis)
+            if c is None:
+                return None
+            # a branch taken after the code has looked at the child itself (`if matches!(**child, Number(..)) { return .. }`)
+            # is a decision about the child, not an oversight: discharged
+            looked = bool({p["path"] for p in walk(node["cond"]) if p["k"] == "Path"} & reach)
+            outs = [run(node["then"], c or looked), run(node["else"], c or looked) if node.get("else") is not None else c]
+            outs = [o for o in outs if o is not None]
+            return all(outs) if outs else None
+        if k == "Match":
+            c = run(node["scrut"], vis)
+            if c is None:
+                return None
+            looked = bool({p["path"] for p in walk(node["scrut"]) if p["k"] == "Path"} & reach)
+            outs = [run(a["body"], c or looked) for a in node["arms"]]
+            outs = [o for o in outs if o is not None]
+            return all(outs) if outs else None
+        if k in ("For", "While", "Loop"):
+            for key, v in node.items():
+                for x in (v if isinstance(v, list) else [v]):
+                    if isinstance(x, dict) and "k" in x:
+                        run(x, vis)
+            return vis or leaf(node)
+        for key, v in node.items():
+            for x in (v if isinstance(v, list) else [v]):
+                if isinstance(x, dict) and "k" in x:
+                    vis = run(x, vis)
+                    if vis is None:
+                        return None
+        return vis
+
+    run(body, False)
+    return bad
+
+
 def loops_cut_short(body, child):
     """`for` loops over (an alias of) `child` inside `body` that can stop before the last element: a `break` of that loop
     or a `return` in its body (`?` is the error exit and is not counted).  returns (number of loops, [descriptions])"""
@@ -246,6 +330,9 @@ def check(ctx, R, file, fn_name, qual, enum_file, enum_name, visitors, scrutinee
                     continue
                 ok = flows_to_visitor(arm["body"], binds[f], visitors, file)
                 ctx.check(R, k, ok, "child `%s` (bound as `%s`) does not flow into %s" % (f, binds[f], "/".join(sorted(visitors))), site(file, arm))
+                if ok:
+                    early = returns_before_visit(arm["body"], binds[f], visitors, file)
+                    ctx.check(R, k.replace("/visited", "/visited-before-every-return"), not early, ("a `return` (line %s) leaves the arm on a path on which child `%s` has not been handed to %s" % (early[0], f, "/".join(sorted(visitors)))) if early else "no return leaves the arm before the child is visited", site(file, arm))
                 nl, cut = loops_cut_short(arm["body"], binds[f])
                 if nl:
                     ctx.check(R, k.replace("/visited", "/every-element"), not cut, "; ".join(cut) or "loops over the child run to the end", site(file, arm))
